@@ -1,12 +1,18 @@
 package tbldrv
 
 import (
+	"context"
 	"encoding/json"
+	"fmt"
+	"net/http"
+	"net/http/httptest"
+	"net/url"
 	"reflect"
 	"strings"
 
 	"golang.org/x/text/language"
 
+	"verif/harness/modelstore"
 	"verif/harness/opdrv"
 
 	"github.com/zitadel/oidc/v3/pkg/crypto"
@@ -405,8 +411,108 @@ func sealCase(c M) M {
 	return o
 }
 
+// ---- endpoint: the provider encodes an object the storage filled
+
+type codecStorage struct {
+	op.Storage
+	ui    *oidc.UserInfo
+	intro *oidc.IntrospectionResponse
+}
+
+func (s codecStorage) SetUserinfoFromToken(_ context.Context, u *oidc.UserInfo, _, _, _ string) error {
+	*u = *s.ui
+	return nil
+}
+
+func (s codecStorage) SetIntrospectionFromToken(_ context.Context, r *oidc.IntrospectionResponse, _, _, _ string) error {
+	*r = *s.intro
+	return nil
+}
+
+func endpointCase(c M) M {
+	t := S(c, "t")
+	regs, customs := SS(c, "regs"), SS(c, "customs")
+	o := M{"panic": false, "ok": false, "extra": "lost"}
+	src := M{}
+	for _, n := range codecProbes[t] {
+		if n != "active" {
+			src[n] = "other"
+		}
+	}
+	o["src"] = src
+	p := CatchPanic(func() {
+		discWorldOnce.Do(func() {
+			w, err := opdrv.LoadWorld(DiscWorldPath)
+			if err != nil {
+				panic(err)
+			}
+			discWorld = w
+		})
+		x := newOf(t)
+		custom := map[string]any{"x_extra": map[string]any{"k": []any{"v", 1.0}}}
+		for _, n := range customs {
+			custom[n] = marker(n, false)
+		}
+		reflect.ValueOf(x).Elem().FieldByName("Claims").Set(reflect.ValueOf(custom))
+		for _, n := range regs {
+			setRegistered(x, n)
+		}
+		store := modelstore.New(opdrv.BuildRegs(discWorld), opdrv.SigningKeyFor("ES256"))
+		cs := codecStorage{Storage: store}
+		if t == "UserInfo" {
+			cs.ui = x.(*oidc.UserInfo)
+		} else {
+			cs.intro = x.(*oidc.IntrospectionResponse)
+		}
+		prov, err := op.NewProvider(&op.Config{CryptoKey: opdrv.CryptoKey}, cs, op.StaticIssuer(opdrv.Issuer))
+		if err != nil {
+			panic("harness: " + err.Error())
+		}
+		var h http.Handler = prov
+		if S(c, "router") == "L" {
+			h = op.RegisterLegacyServer(op.NewLegacyServer(prov, *op.DefaultEndpoints), op.AuthorizeCallbackHandler(prov))
+		}
+		tok, err := op.NewAESCrypto(opdrv.CryptoKey).Encrypt("token-1:user-1")
+		if err != nil {
+			panic("harness: " + err.Error())
+		}
+		var r *opdrv.RawResponse
+		if t == "UserInfo" {
+			req := httptest.NewRequest(http.MethodGet, opdrv.Issuer+"/userinfo", nil)
+			req.Header.Set("Authorization", "Bearer "+tok)
+			r = opdrv.Serve(h, req)
+		} else {
+			r = isoReq(h, http.MethodPost, "/oauth/introspect", url.Values{"token": {tok}}, "cw")
+		}
+		if r.Panic != "" {
+			panic(r.Panic)
+		}
+		var doc M
+		if r.Status != 200 || json.Unmarshal([]byte(r.Body), &doc) != nil {
+			o["detail"] = fmt.Sprintf("%d %s", r.Status, r.Body)
+			return
+		}
+		o["ok"] = true
+		for n := range src {
+			src[n] = classifyMerge(doc, n)
+		}
+		if reflect.DeepEqual(normJSON(doc["x_extra"]), normJSON(custom["x_extra"])) {
+			o["extra"] = "kept"
+		}
+	})
+	if strings.HasPrefix(p, "harness:") {
+		panic(p)
+	}
+	if p != "" {
+		o["panic"], o["detail"] = true, p
+	}
+	return o
+}
+
 func CodecCase(c *Case) M {
 	switch S(c.C, "kind") {
+	case "endpoint":
+		return endpointCase(c.C)
 	case "merge":
 		return mergeCase(c.C)
 	case "decode":
